@@ -94,8 +94,8 @@ def _feed(h, x, depth=0):
         h.update(type(x).__name__.encode())
         vol = getattr(type(x), "_semsim_volatile", ())
         for k in sorted(vars(x)):
-            if k in vol:
-                continue
+            if k in vol or k.startswith("_"):
+                continue        # underscore attributes: lazy private caches are legal (DESIGN 4.2/1)
             h.update(k.encode())
             h.update(b"=")
             _feed(h, vars(x)[k], depth + 1)
